@@ -23,6 +23,9 @@ here).  In addition:
     (negb of the Section parameter t_eqb, the model's reading of Python's == on domain values).
     `self._calculate_reachin(key, b, d)` / `self._calculate_livein(key, b, d)` are the functions of Gen/GraphGen.v
     instantiated with the operations of `key` (call_calculate_reachin / call_calculate_livein).
+    A function that uses one member of a group of same-typed parameters (univ / null, union / inter) takes the
+    whole group (a dead `let`, tcommon.pin_twins; the functions of Gen/GraphGen.v do the same), so that writing one
+    for the other cannot become a mere renaming of a parameter of the discharged function.
   * dictionaries.  Dict[BasicBlock, Any] is the model's association list `Analysis.state T` (GraphGen.dict_get =
     Analysis.lookup, KeyError = None); `d[b] = v` is dict_set (Analysis.update when b is a key, insertion at the end
     otherwise: a Python dict keeps insertion order); `{}` is dict_empty.  Dict[str, Dict[BasicBlock, Any]] is
@@ -67,7 +70,7 @@ import ast
 import os
 import sys
 
-from tcommon import TranslateError, fail, parse, strip_doc, T
+from tcommon import TranslateError, fail, parse, strip_doc, pin_twins, T
 from translate_keys import check_imports, indent, same_text
 from translate_asserted import (
     seq,
@@ -181,11 +184,11 @@ Section SolverGen.
   (* self._block_contexts[key] on the defaultdict(dict): never raises, a missing key reads as {} *)
   Definition ddict_get (d : gdict) (k : string) : state T := match kdict_get d k with Some s => s | None => [] end.
   (* self._calculate_reachin(key, block, d) / self._calculate_livein(key, block, d): the functions of Gen/GraphGen.v
-     with the operations of `key` *)
+     with the operations of `key` (each takes both members of a group of same-typed operations: tcommon.pin_twins) *)
   Definition call_calculate_reachin (key : string) (block : nat) (d : state T) : py T :=
     calculate_reachin_gen T (univ key) (null key) (union key) (inter key) (single key) f block d.
   Definition call_calculate_livein (key : string) (block : nat) (d : state T) : py T :=
-    calculate_livein_gen T (null key) (union key) (inter key) f block d.
+    calculate_livein_gen T (univ key) (null key) (union key) (inter key) f block d.
 """
 
 
@@ -902,7 +905,8 @@ def emit_method(w, gp, cls, gbound, name):
         w("")
     w(f"  (* {GEN_REL}: DataflowTransactionContext.{name} (line {fn.lineno});")
     w(f"     {note} *)")
-    w(f"  {head}\n{indent(body, 4)}.")
+    # a definition that uses one of univ / null (union / inter) takes both: see tcommon.pin_twins
+    w(f"  {head}\n{indent(pin_twins(body), 4)}.")
     w("")
 
 
